@@ -40,8 +40,30 @@ def z_dby(y):
     return y1 * 365 + y1 / 4 - y1 / 100 + y1 / 400
 
 
-def z_ord(y, m, d):
+_ORD = z3.Function("ORD", z3.IntSort(), z3.IntSort(), z3.IntSort(), z3.IntSort())
+USE_ORD_FUNCTION = True
+
+
+def z_ord_expr(y, m, d):
     return z_dby(y) + z_dbm(y, m) + d
+
+
+def z_ord(y, m, d):
+    """proleptic ordinal.  Represented as an application of the function symbol ORD whose definition is asserted for
+    every application that is built: equal arguments then give equal ordinals by congruence, without the solver having
+    to re-derive it through the div/mod arithmetic of the leap-year rule."""
+    c = core.CUR
+    if not USE_ORD_FUNCTION or c is None:
+        return z_ord_expr(y, m, d)
+    y, m, d = [z3.IntVal(v) if isinstance(v, int) else v for v in (y, m, d)]
+    app = _ORD(y, m, d)
+    seen = c.notes.setdefault("ord_defs", set())
+    k = app.get_id()
+    if k not in seen:
+        seen.add(k)
+        c.notes.setdefault("ord_keep", []).append(app)
+        core.add(app == z_ord_expr(y, m, d))
+    return app
 
 
 def z_tod(H, M, S, us):
